@@ -2131,7 +2131,7 @@ impl Engine for ShardEngine {
         match focus {
             "C09" => "Each run: a seeded model shard (0..700 files, 0..60 xorbs, up to 3000 chunks per xorb, four hash styles incl. <=7 equal truncated prefixes, extreme and densely clustered keys; five flag modes; optional re-insertion of identical records) is built through the real in-memory shard, serialised, parsed by the independent parser, and queried through a seekable reader with seeded short reads, the minimal-shard readers (sync short reads; async short reads + Pending) and the stream walker. Non-trivial: some lookup table has > 256 entries (interpolation phase live) or a truncated-prefix collision group exists. Distinct: (model seed, reader seed, reader mode, table size).".into(),
             "C05" => "Each run: 1-3 model shards with duplicate chunks across xorbs and colliding truncated prefixes; direct queries against the in-memory index and the on-disk shard (short-read reader), then a seeded directory history (add/flush/plant/consolidate/keyed re-export under several keys/re-open/clock jumps) with manager queries after each step; every answer is checked for truthfulness against the xorbs ever added. One run in four instead drives deduplication::FileDeduper directly (mode \"deduper\"): a seeded chunk sequence made of runs of stored chunks, own chunks from a small pool and repetitions of earlier stretches is fed in seeded batches against a mock data interface answering from a real in-memory index (a second shard may arrive through the global-dedup query; xorbs the deduper cuts may be added to the index), under per-process xorb limits of 1..17 chunks and sampled fragmentation limits; every index answer and every segment of the final file record (index answers used, in-xorb self-references, new data, across xorb cuts) must name a xorb whose chunks at those positions are the file's chunks there, with the right byte count. One run in 400 (quick) or 150 (thorough) builds a shard with a xorb of 65537..65835 chunks — more than the manager's 16-bit chunk offsets address, legal in the format — and queries the in-memory index, the on-disk shard and a manager around chunk 65535, at the ends and at random positions. Non-trivial: >= 1 hit came from an on-disk shard or the manager and >= 1 query ran past a match end or met a colliding prefix (deduper mode: >= 2 segments and an index answer or a mid-file xorb cut). Distinct: (model seeds, op list hash, hit count).".into(),
-            "C10" => "Each run: 2-4 model shards (disjoint / overlapping / identical via shared seeds / empty; same file with different flag sets) -> cursor-level union and difference through short-read readers, plus a seeded directory history with consolidation under thresholds from 'merge nothing' to 'merge all' and simulated mtimes (ordered, tied, reversed). Non-trivial: >= 1 record occurred in both inputs of a union, or a consolidation merged shards. Distinct: (model seeds, op list hash, consolidation count).".into(),
+            "C10" => "Each run: 2-4 model shards (disjoint / overlapping / identical via shared seeds / empty; same file with different flag sets) -> cursor-level union and difference through short-read readers, path-level union and difference (shard_file_union / shard_file_difference) into a fresh path or onto the first or second operand's path, plus a seeded directory history with consolidation under thresholds from 'merge nothing' to 'merge all' and simulated mtimes (ordered, tied, reversed). Non-trivial: >= 1 record occurred in both inputs of a union, or a consolidation merged shards. Distinct: (model seeds, op list hash, consolidation count).".into(),
             _ => "Each run: shards re-exported under 4 keys (incl. the zero key) with all 8 include-flag combinations into one directory while a simulated clock is advanced across creation/expiry/grace boundaries; exported bytes are checked by the independent parser (every chunk hash and table key keyed, no raw chunk hash, xorb/file hashes kept, sections present iff requested, timestamps), manager answers for unkeyed queries are checked for truthfulness, expired shards must not load and may be deleted only after expiry+grace. Non-trivial: >= 1 keyed export was checked and >= 1 manager query hit. Distinct: (model seeds, op list hash, export count).".into(),
         }
     }
